@@ -59,6 +59,19 @@ func TestC11(t *testing.T) {
 	r.Require("hist_circuit_ended_by_duration", 10)
 	r.Require("hist_circuit_ended_by_disconnect", 10)
 	r.Require("hist_connect_in_expiry_window", 3)
+	// vacuity guard (the statement is one-sided, so a relay that refuses is never in violation; but a run in
+	// which admissible requests are mostly refused has not exercised the grant paths): >= 95 % of the
+	// admissible fault-free sequential RESERVE and CONNECT requests must have been granted
+	for _, op := range []string{"reserve", "connect"} {
+		adm, gr := r.Counter("admissible/"+op), r.Counter("admissible_granted/"+op)
+		if adm > 0 {
+			r.Count("admissible_granted_permille/"+op, int(gr*1000/adm))
+		}
+		if adm >= 100 && gr*100 >= adm*95 {
+			r.Count("guard_admissible_"+op+"_mostly_granted", 1)
+		}
+		r.Require("guard_admissible_"+op+"_mostly_granted", 1)
+	}
 
 	concurrency(t, r, 600, 20000)
 	r.Require("conc_rounds", 100)
@@ -128,10 +141,11 @@ type histResult struct {
 	bubble   run.BubbleResult
 	ops      int
 	stalled  bool
+	soft     map[string]int // one-sided statement: unexpected refusals are counted, never raised
 }
 
 func runHistory(t *testing.T, rng *rand.Rand, cfg relayCfg, nops int) *histResult {
-	res := &histResult{cfg: cfg, classes: map[string]int{}}
+	res := &histResult{cfg: cfg, classes: map[string]int{}, soft: map[string]int{}}
 	res.bubble = run.Bubble(t, func(t *testing.T) {
 		w, err := newWorld(cfg, limitsWith(rcmgr.ResourceLimits{}, rcmgr.ResourceLimits{}), nil)
 		if err != nil {
@@ -279,6 +293,9 @@ func nontrivialHistory(c map[string]int) bool {
 func (res *histResult) collect(w *world) {
 	w.shutdown()
 	res.log, res.problems, res.stalled = w.log, append(res.problems, w.problems...), w.stalled
+	for k, v := range w.softc {
+		res.soft[k] += v
+	}
 }
 
 // settle turns a finished case into violations / inconclusive notes; false: the case did not complete.
@@ -295,6 +312,9 @@ func settle(r *run.R, caseID string, res *histResult, detail map[string]any) boo
 		r.Violation(p.Sig, caseID, p.Msg, detail)
 	}
 	r.Eval(1)
+	for k, v := range res.soft {
+		r.Count(k, v)
+	}
 	return true
 }
 
